@@ -76,20 +76,25 @@ fn compile_field_values<E: quiver_core::effects::Effect>(
     for field in fields {
         match &field.value {
             ast::FieldValue::Chain(chain) => {
-                // Pass ripple_context with incremented offset
-                let ripple_context_value;
-                let ripple_context_param = if let Some(ctx) = ripple_context {
-                    ripple_context_value = RippleContext {
-                        value_type_id: ctx.value_type_id,
-                        stack_offset: ctx.stack_offset + stack_size,
-                        owns_value: false,
-                        provenance: ctx.provenance.clone(),
-                    };
-                    Some(&ripple_context_value)
-                } else {
-                    None
-                };
-                let type_id = compiler.compile_chain(chain.clone(), None, ripple_context_param)?;
+                // Each field chain receives a copy of the enclosing (piped) value as its input,
+                // exactly as in a tuple without spreads: a leading callable field is called with
+                // it, a block or match field starts from it, and a nested tuple re-derives its own
+                // ripple context from it.
+                let input = ripple_context.map(|ctx| {
+                    compiler
+                        .codegen
+                        .add_instruction(Instruction::Pick(ctx.stack_offset + stack_size));
+                    (ctx.value_type_id, ctx.provenance.clone())
+                });
+                let (type_id, _) = compiler.compile_chain_with_input(
+                    chain.clone(),
+                    None,
+                    None,
+                    input,
+                    None,
+                    false,
+                    None,
+                )?;
                 compiled_values.push(CompiledValue::Field {
                     name: field.name.clone(),
                     type_id,
